@@ -42,44 +42,54 @@ def run(tier, only=None):
     rep = report.Report("C09", tier, "model_checking")
     te = tok.TokEngine("C09", tier)
     leaflen = 10 if quick else 14
-    units = [
-        ("c09.filter", "tok_filter.c", ["-DMODE_SAFE", "-DNMAX=%d" % (104 if quick else 120)], LTI, None, 110, 3000),
-        ("c09.opds.5x1", "tok_opds.c", ["-DNOPD=5", "-DOPW=1"], [], None, 110, 3000),
-        ("c09.opds.2x3", "tok_opds.c", ["-DNOPD=2", "-DOPW=3"], [], None, 110, 3000),
-        ("c09.opds.6x1", "tok_opds.c", ["-DNOPD=6", "-DOPW=1"], [], None, 110, 3000),
-    ]
+    # unit tuples: (name, harness, defs, replaced calls, kind, string bound, timeout).  The string bound is the unwinding
+    # bound of the libc string loops (strstr, strlen, strchr, strtok_r, strtoul): the length of the longest string
+    # the unit can hand them plus a margin; the unwinding assertions check that it suffices.
+    fl = 40 if quick else 120
+    units = [("c09.filter", "tok_filter.c", ["-DMODE_SAFE", "-DNMAX=%d" % fl], LTI, None, max(fl, 20) + 6, 700 if quick else 5400),
+             # the end of the line buffer: a fixed significant prefix of 90 characters, then 16 arbitrary bytes
+             ("c09.filter.boundary", "tok_filter.c", ["-DMODE_SAFE", "-DNMAX=106", "-DPREFIX_LEN=90"], LTI, None, 112, 700 if quick else 3000)]
+    opds = [(3, 1), (2, 2)] if quick else [(5, 1), (2, 3), (6, 1), (3, 2), (4, 1)]
+    for k, w in opds:
+        # (the keyword scanner is replaced by its contract stub here; it is decided on its own by c09.leaf.kw.*)
+        units.append(("c09.opds.%dx%d" % (k, w), "tok_opds.c", ["-DNOPD=%d" % k, "-DOPW=%d" % w, "-DKW_STUB"],
+                      [("__CPROVER_file_local_tokenizer_c_check_for_keyword", "stub_check_for_keyword")], None, 4 + k * (w + 1) + 4, 700 if quick else 5400))
     firsts = list(range(0x5b, 0x7b))
     for c in firsts:
-        units.append(("c09.leaf.instrkey.%02x" % c, "tok_leaf.c", ["-DT_INSTRKEY", "-DLEAFLEN=12", "-DFIRST=%d" % c], [], "leaf", 110, 1200))
+        units.append(("c09.leaf.instrkey.%02x" % c, "tok_leaf.c", ["-DT_INSTRKEY", "-DLEAFLEN=12", "-DFIRST=%d" % c], [], "leaf", 20, 600))
     for t in ("T_REGSTR", "T_ADD", "T_CONST", "T_INDEX", "T_TYPE", "T_KW", "T_MEMTOK", "T_IMMTOK", "T_STRTOREG"):
-        ll = leaflen if t not in ("T_KW", "T_MEMTOK") else (7 if t == "T_KW" else min(leaflen, 9))
-        units.append(("c09.leaf.%s" % t[2:].lower(), "tok_leaf.c", ["-D" + t, "-DLEAFLEN=%d" % ll], [], "leaf", 110, 3000))
+        ll = 5 if t == "T_STRTOREG" else leaflen if t not in ("T_KW", "T_MEMTOK") else ((4 if quick else 8) if t == "T_KW" else min(leaflen, 9))
+        for place in (0, 1):
+            for ln in range(0 if t not in ("T_INDEX", "T_MEMTOK", "T_IMMTOK") else 1, ll + 1):
+                units.append(("c09.leaf.%s.p%d.l%d" % (t[2:].lower(), place, ln), "tok_leaf.c",
+                              ["-D" + t, "-DLEAFLEN=%d" % ll, "-DLEN_FIX=%d" % ln, "-DPLACE=%d" % place], [], "leaf", ln + 3, 600 if quick else 3000))
     if only:
         units = [u for u in units if fnmatch.fnmatch(u[0], only)]
 
     def ujob(u):
-        return te.unit(u[0], u[1], defs=u[2], replace=u[3], unwind=u[5], checks="full", timeout=u[6],
+        sb = u[5]
+        return te.unit(u[0], u[1], defs=u[2], replace=u[3], unwind=sb + 2, checks="full", timeout=u[6],
                        hunt={"cap": 6, "timeout": 60, "keep": ("asm_build_index_tables",)} if u[4] == "leaf" else None,
                        replay_fn=leaf_replay(None) if u[4] == "leaf" else None,
-                       unwindset={"strstr.0": 110, "strstr.1": 110, "strlen.0": 110, "strchr.0": 110, "strtok_r.0": 110, "strtok_r.1": 110,
+                       unwindset={"strstr.0": sb, "strstr.1": sb, "strlen.0": sb, "strchr.0": sb, "strtok_r.0": sb, "strtok_r.1": sb,
                                   "find_reg.0": te.tb["reg_rows"] + 2, "strcmp.0": 12, "vf_model_strtoul.0": 30, "vf_model_strtoul.1": 30,
                                   "__CPROVER_file_local_tokenizer_c_operand_tok.0": 8,
                                   "str_to_instr_key.0": te.tb["instr_rows"] + 8, "str_to_instr_key.1": te.tb["instr_rows"] + 8})
     rep.add(core.pmap(ujob, units))
     # encoder/emitter paths on well-formed lines with all checks enabled
     eng = enc.EncEngine("C09", tier)
-    pool = families.c01_families(True) + families.c04_families(True) + families.c02_families(True) + families.c03_families(True) + \
+    pool = families.c01_families(True) + families.c04_families(True) + families.c02_families(True, pool=True) + families.c03_families(True) + \
         [s for s in families.c05_families(True)]
-    step = 9 if quick else 2
+    step = 16 if quick else 2
     sks = pool[::step]
     if only:
         sks = [s for s in sks if fnmatch.fnmatch("c09.enc." + s.name, only)]
     rep.add(core.pmap(eng.run_safety, sks))
     return rep.finish(
         {"units": [u[0] for u in units], "enc_skeletons_with_full_checks": len(sks),
-         "symbolic_per_query": "filter: every byte string of up to 104 bytes through the line filter and str_to_instr's line skipping, with the precondition of line_to_instr checked; opds: 'mov o1,..,ok' with k up to 6 operands of arbitrary non-separator characters through the real instr_tok/operand_tok and all callees; leaves: each scanner on an arbitrary printable string of up to %d characters at an arbitrary position of the line buffer; enc: well-formed skeletons of C01-C05 (symbolic registers/numbers/options) with CBMC's pointer, bounds, overflow, shift and conversion checks on every library statement" % leaflen},
+         "symbolic_per_query": "filter: every byte string of up to %d bytes, and every string of a fixed 90-character significant prefix followed by up to 16 arbitrary bytes (crossing the end of the 100-byte line buffer), through the line filter and str_to_instr's line skipping, with the precondition of line_to_instr checked; opds: 'mov o1,..,ok' with k operands of arbitrary non-separator characters through the real instr_tok/operand_tok and their callees, the keyword scanner replaced by its contract stub (it is decided by the kw leaf); leaves: each scanner on an arbitrary printable string of every length up to %d, placed at the start and flush against the end of the line buffer (one query per length and placement); enc: well-formed skeletons of C01-C05 (symbolic registers/numbers/options) with CBMC's pointer, bounds, overflow, shift and conversion checks on every library statement" % (fl, leaflen)},
         tok.TOK_ASSUMPTIONS + enc.ENC_ASSUMPTIONS[1:5] + ["termination = unwinding assertions hold within the stated bounds"],
-        {"filter_bytes": 104 if quick else 120, "leaf_string_length": leaflen, "operands": "up to 6 x 1 char, 2 x 3 chars",
+        {"filter_bytes": fl, "filter_boundary": "90 fixed + 16 arbitrary bytes", "leaf_string_length": leaflen, "operands": ["%d x %d chars" % kw for kw in opds],
          "outside": "whole-line symbolic text through the complete tokenizer (out of reach, DESIGN.md section 2): the composition of the units is an argument, each unit is a verdict; strings longer than the unit bounds"},
         "one CBMC query per unit / skeleton with --bounds/pointer/overflow/shift/conversion checks and unwinding assertions",
         FUNCS + ["filter_assembly_str_fsa", "str_to_instr", "instr_tok", "operand_tok", "check_operand_type", "check_for_keyword", "imm_tok", "mem_tok",
